@@ -257,6 +257,18 @@ func (g *PG) Node(depth int) Node {
 			if probe.Max == 0 {
 				g.noDecl--
 			}
+			if (probe.Min >= 5 || probe.Max >= 5) && loopNest(body) > 1 {
+				// a big count over nested loops (or calls) multiplies the backtracking: big counts only over bodies with at most one loop level
+				if probe.Min > 2 {
+					probe.Min = 2
+				}
+				if probe.Max > 3 {
+					probe.Max = 3
+				}
+				if probe.Form == "exactly" {
+					probe.Max = probe.Min
+				}
+			}
 			probe.Body = body
 			return probe
 		case 5, 6:
@@ -312,6 +324,33 @@ func (g *PG) Node(depth int) Node {
 		}
 	}
 	return g.atom()
+}
+
+// loopNest: nesting depth of loops in n; calls count as two levels (they may recurse).
+func loopNest(n Node) int {
+	best := 0
+	up := func(d int) {
+		if d > best {
+			best = d
+		}
+	}
+	switch x := n.(type) {
+	case Loop:
+		up(1 + loopNest(x.Body))
+	case Seq:
+		for _, it := range x.Items {
+			up(loopNest(it))
+		}
+	case Or:
+		for _, it := range x.Alts {
+			up(loopNest(it))
+		}
+	case Capture:
+		up(loopNest(x.Body))
+	case SubDef, SubCall, GlobalRef:
+		up(2)
+	}
+	return best
 }
 
 func (g *PG) atomOrGroup(depth int) Node {
